@@ -5,6 +5,13 @@
 #include "api/smt2tokens.h"
 using namespace opensmt;
 
+// one define for all three classes of names that protectName prints unquoted although the lexer does not read them as symbols
+#ifdef KF_C17_UNQUOTED_NON_SYMBOLS
+#define KF_C17_NUMBER_LIKE
+#define KF_C17_BANG_UNDERSCORE
+#define KF_C17_UPPERCASE_RESERVED
+#endif
+
 // ---- bounded primitives of std::string (every string here fits the 15-character SSO buffer)
 #define SB 16
 extern "C" char * stub_ct_copy(char * d, const char * s, size_t n) {
@@ -18,6 +25,11 @@ extern "C" char * stub_ct_move(char * d, const char * s, size_t n) {
     for (size_t i = 0; i < SB; i++) if (i < n) tmp[i] = s[i];
     for (size_t i = 0; i < SB; i++) if (i < n) d[i] = tmp[i];
     return d;
+}
+extern "C" int stub_ct_compare(const char * a, const char * b, size_t n) {
+    VASSERT(n <= SB, "bound: strings inside the SSO buffer");
+    for (size_t i = 0; i < SB; i++) if (i < n) { unsigned char x = (unsigned char)a[i], y = (unsigned char)b[i]; if (x != y) return x < y ? -1 : 1; }
+    return 0;
 }
 extern "C" size_t stub_ct_length(const char * s) {
     for (size_t i = 0; i < 96; i++) if (s[i] == 0) return i;
@@ -161,10 +173,11 @@ extern "C" void h_protect_short_names() {
     if (seen_given_quoted) { VWITNESS("given-with-bars"); }
 }
 
-// the words of the lexer and of tokenNames, and number-like names longer than 3 characters
+// the words of the lexer and of tokenNames (those of <= 13 characters: with two bars they still fit the SSO buffer), and
+// number-like names longer than 3 characters
 static const char words[][MAXN + 1] = { "!", "_", "as", "DECIMAL", "exists", "forall", "let", "NUMERAL", "par", "STRING", "assert", "check-sat",
-    "declare-sort", "declare-fun", "declare-const", "define-sort", "define-fun", "exit", "get-assertions", "get-assignment", "get-info", "get-option",
-    "get-proof", "get-unsat-core", "get-value", "get-model", "pop", "push", "set-logic", "set-info", "set-option", "get-interpolants", "theory",
+    "declare-sort", "declare-fun", "declare-const", "define-sort", "define-fun", "exit", "get-info", "get-option",
+    "get-proof", "get-value", "get-model", "pop", "push", "set-logic", "set-info", "set-option", "theory",
     "simplify", "echo", "none", "decimal", "numeral", "string", "write-state", "read-state", "write-funs",
     "-1.5", "-1/2", "-0.5", "-00.5", "-10", "-0", "-1a", "1.5", "0", "Numeral", "asx", "x!", "a_b", "+", "-", "a'b", "#b1", ":k", "a b" };
 #define NWORDS (int)(sizeof(words) / sizeof(words[0]))
